@@ -188,7 +188,7 @@ def run_vector(vec):
     problems = []
     runs = []
     if op in NUM_ONLY:
-        runs = [("num", "C"), ("num", "F")]
+        runs = [("num", "C"), ("num", "F"), ("num", "I")]       # (I: whole-number values stored with an integer dtype)
     else:
         # I: values stored with an INTEGER dtype; S: float32; B: all values scaled by 2^40 (exact); N: one entry is NaN
         # T: all values scaled by 2^-40 (no absolute thresholds)
